@@ -19,9 +19,11 @@ namespace Fastor {
 //----------------------------------------------------------------------------------------------------------//
 template<typename T, typename ABI>
 FASTOR_INLINE SIMDVector<T,ABI> min(const SIMDVector<T,ABI> &a, const SIMDVector<T,ABI> &b) {
-    SIMDVector<T,ABI> out;
-    for (FASTOR_INDEX i=0; i<SIMDVector<T,ABI>::Size; i++) { ((T*)&out)[i] = std::min(((T*)&a)[i],((T*)&b)[i]); }
-    return out;
+    // go through arrays: reading integer lanes through T* violates strict aliasing and returned stale lanes
+    T va[SIMDVector<T,ABI>::Size], vb[SIMDVector<T,ABI>::Size];
+    a.store(va,false); b.store(vb,false);
+    for (FASTOR_INDEX i=0; i<SIMDVector<T,ABI>::Size; i++) { va[i] = std::min(va[i],vb[i]); }
+    return SIMDVector<T,ABI>(va,false);
 }
 template<typename T, typename ABI>
 FASTOR_INLINE SIMDVector<T,ABI> min(const SIMDVector<T,ABI> &a, T b) {
@@ -100,9 +102,11 @@ FASTOR_INLINE SIMDVector<double,simd_abi::avx512> min(const SIMDVector<double,si
 //----------------------------------------------------------------------------------------------------------//
 template<typename T, typename ABI>
 FASTOR_INLINE SIMDVector<T,ABI> max(const SIMDVector<T,ABI> &a, const SIMDVector<T,ABI> &b) {
-    SIMDVector<T,ABI> out;
-    for (FASTOR_INDEX i=0; i<SIMDVector<T,ABI>::Size; i++) { ((T*)&out)[i] = std::max(((T*)&a)[i],((T*)&b)[i]); }
-    return out;
+    // go through arrays: reading integer lanes through T* violates strict aliasing and returned stale lanes
+    T va[SIMDVector<T,ABI>::Size], vb[SIMDVector<T,ABI>::Size];
+    a.store(va,false); b.store(vb,false);
+    for (FASTOR_INDEX i=0; i<SIMDVector<T,ABI>::Size; i++) { va[i] = std::max(va[i],vb[i]); }
+    return SIMDVector<T,ABI>(va,false);
 }
 template<typename T, typename ABI>
 FASTOR_INLINE SIMDVector<T,ABI> max(const SIMDVector<T,ABI> &a, T b) {
